@@ -9,6 +9,12 @@ CLAIMED = {
  "C03": dict(cat="model_checking", technique="TLA+ model checking (TLC, SluPipe) + trace validation of recorded executions (SluPipeTrace)",
              text="SluPipe models scheduler, pipeline wait protocol, supernode numbering, pruning and fixupL at the grain of the code's critical sections; TLC checks all interleavings exhaustively for every postordered forest up to the stated bound; real multithreaded factorizations are recorded through hooks and validated event by event against the same specification with every invariant evaluated at every step.",
              note="Trusted: TLC, sequential-consistency interleaving semantics, the hook logging discipline (DESIGN 4.2), the harness runtime. Exhaustive only within small constants (N<=5/6 columns, P<=3).", ref="3.2, 4.3, 5 C03"),
+ "C04": dict(cat="model_checking", technique="TLA+ model checking with liveness (TLC, SluPipe FairSpec/Termination) + trace validation of watchdogged executions",
+             text="TLC checks Termination under weak fairness and the counting invariants (TasksExact, OncePerPanel, QueueBound, NeverRoot, WaitOnBusy, Finished) for every interleaving on all small forests, also with zero pivots and with more workers than panels; real factorizations with 1..64 threads, singular inputs and injected delays run under a watchdog and their traces (one Pivot per column, an Exit per worker before JoinAll, thread count before/after) are validated against the same specification.",
+             note="Liveness under weak fairness of each thread (an OS scheduler that eventually runs every thread); sequentially consistent interleavings; bounded forests (N<=4/5, P<=3).", ref="3.2, 5 C04"),
+ "C09": dict(cat="model_checking", technique="TLA+ specification as oracle (SluLU!WellFormedLU evaluated by TLC on the projected output) + SluPipe model checking of numbering/storage/fixupL",
+             text="WellFormedLU is a declarative TLA+ definition of a well-formed (L,U,perm_r,perm_c); TLC evaluates it on the structure returned by every recorded real factorization (first-time, refactored, user workspace) and checks equality with the supernode maps of the model state reached by the validated trace; the model itself establishes CompactionSafe/TopoNumbering/SupernodeMaps for every interleaving of small forests.",
+             note="Structures logged in full only for n<=80; trusted: TLC, the projection code of the harness (drv_pipe.c put_list).", ref="3.2, 4.5, 5 C09"),
 }
 NA_REASON = "check not built yet in this session (planned, see DESIGN.md section 5); not claimed"
 
